@@ -1388,6 +1388,9 @@ impl Function {
         while instruction_ptr < self.instructions.len() {
             let instruction = &self.instructions[instruction_ptr];
 
+            #[cfg(mscript_verif)]
+            crate::verif::on_instruction(instruction.id, current_frame.borrow().size());
+
             // queries the function pointer associated with the instruction,
             // and gives it ownership of the instruction.
             query!(&mut context, instruction)
@@ -1503,6 +1506,11 @@ impl Function {
         current_frame.borrow_mut().pop();
 
         Ok(ReturnValue::NoValue)
+    }
+
+    #[cfg(mscript_verif)]
+    pub(crate) fn instructions(&self) -> &[Instruction] {
+        &self.instructions
     }
 
     /// Get a function's name.
